@@ -509,7 +509,7 @@ func (m *Model) Apply(op *Op, out *Outcome) []Complaint {
 		if v.expectOK(out) {
 			m.Sessions = append(m.Sessions, &Session{Repo: op.Repo, Pending: -1})
 			m.setHandle(out.Handle, len(m.Sessions)-1)
-			if out.WSize != 0 {
+			if out.WSize > 0 {
 				v.add("semantics", "new-session-size", fmt.Sprintf("%s: new upload reports size %d", op, out.WSize))
 			}
 		}
@@ -544,7 +544,7 @@ func (m *Model) Apply(op *Op, out *Outcome) []Complaint {
 		if v.expectOK(out) {
 			s.Pending = op.Offset
 			m.setHandle(out.Handle, si)
-			if out.WSize != int64(len(s.Data)) {
+			if out.WSize >= 0 && out.WSize != int64(len(s.Data)) {
 				v.add("semantics", "resume-size", fmt.Sprintf("%s: resumed upload reports size %d, %d bytes were received", op, out.WSize, len(s.Data)))
 			}
 		}
@@ -555,7 +555,7 @@ func (m *Model) Apply(op *Op, out *Outcome) []Complaint {
 		}
 		if s.Pending != -1 && s.Pending != int64(len(s.Data)) {
 			v.expectFail(out, "wrong-offset", "code", "RANGE_INVALID")
-			if !out.OK && out.WSize != int64(len(s.Data)) {
+			if !out.OK && out.WSize >= 0 && out.WSize != int64(len(s.Data)) {
 				v.add("semantics", "refused-write-changed-size", fmt.Sprintf("%s: refused write changed the upload size to %d (was %d)", op, out.WSize, len(s.Data)))
 			}
 			break
@@ -567,7 +567,7 @@ func (m *Model) Apply(op *Op, out *Outcome) []Complaint {
 		}
 		s.Pending = -1
 		s.Data = append(append([]byte(nil), s.Data...), op.Data...)
-		if out.OK && out.WSize != int64(len(s.Data)) {
+		if out.OK && out.WSize >= 0 && out.WSize != int64(len(s.Data)) {
 			v.add("semantics", "size-after-write", fmt.Sprintf("%s: Size()=%d after %d bytes", op, out.WSize, len(s.Data)))
 		}
 	case "W.Close":
